@@ -65,6 +65,9 @@ type pqCase struct {
 	timeChk  bool // the generator knows the intended micros
 	store    bool // WithStoreSchema
 	note     string
+	failAt   int  // storage outage during the first attempt: fail Write #failAt (-1 = none); the upload is then retried
+	big      bool // size class > 1024 rows: monitors only
+	nrows    int  // 0 = random small
 }
 
 func (p *pqCase) tcEff() string {
@@ -755,8 +758,16 @@ func (e *env) genPQTime(p *pqCase, n int) gcol {
 func (e *env) newPQCase() *pqCase {
 	r := e.r
 	e.seq++
-	p := &pqCase{db: vh.Pick(r, []string{"imp", "pq_db"}), meas: fmt.Sprintf("p%d", e.seq), store: r.Bool()}
+	return e.newPQCaseN(0)
+}
+
+func (e *env) newPQCaseN(nrows int) *pqCase {
+	r := e.r
+	p := &pqCase{db: vh.Pick(r, []string{"imp", "pq_db"}), meas: fmt.Sprintf("p%d", e.seq), store: r.Bool(), failAt: -1, nrows: nrows, big: nrows > 1024}
 	n := r.Range(1, 8)
+	if nrows > 0 {
+		n = nrows
+	}
 	tcName := "time"
 	if r.Chance(35) {
 		tcName = vh.Pick(r, []string{"ts", "event_time", "T"})
@@ -875,10 +886,29 @@ func (e *env) runPQ(p *pqCase) {
 		c.Tag("pq:generator-write-error")
 		return
 	}
-	status, body := e.upload("parquet", p.db, p.meas, p.query(), data, e.r.Bool())
+	hdr := e.r.Bool()
+	e.store.arm(p.failAt)
+	status, body := e.upload("parquet", p.db, p.meas, p.query(), data, hdr)
+	e.store.arm(-1)
 	rows, nfiles, elsewhere, rerr := e.readStored(p.db, p.meas)
 	_ = nfiles
 	defer e.wipe()
+	if p.failAt >= 0 && rerr == nil {
+		// fault history: the storage refused writes during the request, works again, the client retries
+		c.Tag(fmt.Sprintf("pq:fault-first-attempt-http-%d", status))
+		if status == 200 {
+			if n, ok := rowsImported(body); ok && int(n) != len(rows) {
+				c.Fail("import-acked-but-not-stored:flush-error-swallowed", fmt.Sprintf("parquet import answered HTTP 200 with rows_imported=%d but %d rows are in storage (storage write fault at write #%d during the request)", n, len(rows), p.failAt), p.replay(data, status))
+			}
+		} else if len(rows) > 0 {
+			c.Fail("partial-import-after-error:parquet:storage-write-fault", fmt.Sprintf("import answered HTTP %d but %d rows are stored", status, len(rows)), p.replay(data, status))
+		}
+		if status >= 500 {
+			status, body = e.upload("parquet", p.db, p.meas, p.query(), data, hdr)
+			rows, nfiles, elsewhere, rerr = e.readStored(p.db, p.meas)
+			p.note += "retried-after-storage-fault "
+		}
+	}
 	accepted := status == 200
 	c.Tag(fmt.Sprintf("pq:http-%d", status))
 	c.Tag("pq:unit:" + p.unit)
@@ -893,14 +923,21 @@ func (e *env) runPQ(p *pqCase) {
 		c.Fail("stored-file-unreadable:parquet", rerr.Error(), rep())
 		return
 	}
-	if arg, ok := decodedView(data, p.tcEff(), p.fmtEff()); ok {
-		out := "rej"
-		if accepted {
-			out = canonRows(rows)
+	if p.failAt < 0 && !p.big {
+		if arg, ok := decodedView(data, p.tcEff(), p.fmtEff()); ok {
+			out := "rej"
+			if accepted {
+				out = canonRows(rows)
+			}
+			c.Op(fmt.Sprintf("pq %s %s %s", hx(p.tcEff()), fmtLabel(p.fmtEff()), arg), out)
 		}
-		c.Op(fmt.Sprintf("pq %s %s %s", hx(p.tcEff()), fmtLabel(p.fmtEff()), arg), out)
 	}
-	c.Case(fmt.Sprintf("pq %x %v", data, p.query()), true)
+	if p.big {
+		c.Case(fmt.Sprintf("pq-big rows=%d cols=%d len=%d %v", p.nrows, len(p.cols), len(data), p.query()), true)
+		c.Tag(fmt.Sprintf("pq:big:%d", p.nrows))
+	} else {
+		c.Case(fmt.Sprintf("pq %x %v fault=%d", data, p.query(), p.failAt), true)
+	}
 	if len(elsewhere) > 0 {
 		c.Fail("wrong-target:parquet", fmt.Sprintf("files stored outside %s/%s/: %v", p.db, p.meas, elsewhere), rep())
 	}
@@ -974,10 +1011,27 @@ func showG(g gcol, c gcell) string {
 
 func (e *env) pqCase() { e.runPQ(e.newPQCase()) }
 
+// pqFaultCases: total storage outage during the request (the first Write fails), then a retry.
+func (e *env) pqFaultCases(n int) {
+	for i := 0; i < n; i++ {
+		p := e.newPQCase()
+		p.failAt = 0
+		e.runPQ(p)
+	}
+}
+
+// bigPQCases: Parquet files above 1024 rows; every stored cell is compared with the input.
+func (e *env) bigPQCases(sizes []int) {
+	for _, n := range sizes {
+		e.seq++
+		e.runPQ(e.newPQCaseN(n))
+	}
+}
+
 func (e *env) pqCorpus() {
 	one := func(note string, tk string, tv int64, tfmt *string, unit string, T int64, ovf bool, extra ...gcol) {
 		e.seq++
-		p := &pqCase{db: "imp", meas: fmt.Sprintf("p%d", e.seq), tfmt: tfmt, unit: unit, note: note, timeChk: true,
+		p := &pqCase{db: "imp", meas: fmt.Sprintf("p%d", e.seq), tfmt: tfmt, unit: unit, note: note, timeChk: true, failAt: -1,
 			timeT: []int64{T}, timeAlt: []int64{T}, timeOK: []bool{true}, timeOvf: []bool{ovf}}
 		p.cols = []gcol{{name: "time", kind: tk, cells: []gcell{{i: big.NewInt(tv)}}}, {name: "rid", kind: "i64", cells: []gcell{{i: big.NewInt(1)}}}}
 		p.cols = append(p.cols, extra...)
